@@ -7,6 +7,8 @@ CONSTANTS
   UseLock = TRUE
   Depth = 0
   FullDepth = 0
+  WideDepth = 0
+  Wide = {}
   Core = {}
 INVARIANT EmitK
 CHECK_DEADLOCK FALSE
